@@ -334,6 +334,11 @@ func c11Prepare(c *c11case) func() {
 			cands = append(cands, cand{nil, "root"})
 		}
 		cd := cands[rapid.IntRange(0, len(cands)-1).Draw(rt, "path")]
+		// one path in five is cut short: it then ends at an ancestor, which in a compressed struct can be an
+		// element that has no struct of its own (the surrounding container of a list, a config/state container)
+		if len(cd.el) > 1 && rapid.IntRange(0, 4).Draw(rt, "cut") == 0 {
+			cd = cand{cd.el[:rapid.IntRange(1, len(cd.el)-1).Draw(rt, "cutat")], "ancestor"}
+		}
 		path := model.PathProto(cd.el)
 		var opts []ytypes.GetNodeOpt
 		optName := rapid.SampledFrom([]string{"none", "none", "wildcards", "partial", "tolerate-nil", "shadow"}).Draw(rt, "opt")
